@@ -80,8 +80,13 @@ def execute(w, ins):
             and w.pending_final is None and w.pending_line is None:
         # F-alloc: the manager may grow by about `alloc` nodes, then it is full
         try:
-            limit = (g0.raw, g0.raw.max_nodes)
-            g0.raw.max_nodes = max(g0.raw._succ) + 1 + ins['alloc']
+            gl = g0
+            if ins['op'] == 'copy' and len(w.mgrs) > 1:
+                gl = w.mgrs[1 - g0.idx]          # nodes are created in the target
+            if gl.api.configure().get('reordering'):
+                raise ValueError('not under dynamic reordering')
+            limit = (gl.raw, gl.raw.max_nodes)
+            gl.raw.max_nodes = max(gl.raw._succ) + 1 + ins['alloc']
             w.alloc_armed = True
             w.stats['alloc_limit_armed'] += 1
         except Exception:
